@@ -49,6 +49,7 @@ type netState struct {
 	writes     []sockWrite
 	faults     bool
 	connectMax int64 // upper bound of a TCP connect's duration in ns (0: none)
+	connectMin int64
 }
 
 func (e *Engine) netType(name string) types.Type {
@@ -334,6 +335,9 @@ func init() {
 			if rest.net != nil && rest.net.connectMax > 0 {
 				rest.assume(c.BVSle(dur, e.bv64(rest.net.connectMax)))
 			}
+			if rest.net != nil && rest.net.connectMin > 0 {
+				rest.assume(c.BVSle(e.bv64(rest.net.connectMin), dur))
+			}
 			done := c.BVAdd(rest.clock, dur)
 			if dl != nil {
 				late, intime := e.forkOn(rest, c.BVSle(dl, done), "connect takes longer than the dialer's deadline")
@@ -459,6 +463,12 @@ func (e *Engine) netIntrinsic(st *State, name string, args []Value) ([]exit, boo
 		return retExit(st, nil), true
 	case "verifNetPlayTo":
 		return retExit(st, nil), true
+	case "verifNetConnectRange":
+		n := st.netw()
+		n.connectMin, n.connectMax = int64(concreteInt(args[0], name)), int64(concreteInt(args[1], name))
+		return retExit(st, nil), true
+	case "verifSlowDialTarget":
+		return retExit(st, e.bv64(peerPort)), true
 	case "verifNetConnectMax":
 		st.netw().connectMax = int64(concreteInt(args[0], name))
 		return retExit(st, nil), true
@@ -549,7 +559,7 @@ func netEqual(a, b *netState) bool {
 	if a == nil || b == nil {
 		return false
 	}
-	if a.pos != b.pos || a.faults != b.faults || a.connectMax != b.connectMax || len(a.writes) != len(b.writes) || (a.script == nil) != (b.script == nil) {
+	if a.pos != b.pos || a.faults != b.faults || a.connectMax != b.connectMax || a.connectMin != b.connectMin || len(a.writes) != len(b.writes) || (a.script == nil) != (b.script == nil) {
 		return false
 	}
 	if a.script != nil && a.script != b.script {
